@@ -177,6 +177,9 @@ func (c *otApplyContext) applyGPOS(table tables.GPOSLookup) bool {
 		case tables.SinglePosData1:
 			c.applyGPOSValueRecord(inner.ValueFormat, inner.ValueRecord, glyphPos)
 		case tables.SinglePosData2:
+			if index >= len(inner.ValueRecords) {
+				return false
+			}
 			c.applyGPOSValueRecord(inner.ValueFormat, inner.ValueRecords[index], glyphPos)
 		}
 		buffer.idx++
